@@ -9,7 +9,7 @@ import concurrent.futures as cf
 from vlib import tlc, runner
 
 KINDMAP = {"ok": "ok", "probe": "ok", "raise": "ok", "long": "long", "big": "big", "crash": "crash", "unpicklable_arg": "bad_arg",
-           "hugearg": "huge"}
+           "hugearg": "huge", "oserror_arg": "bad_arg", "ebadf_arg": "bad_arg", "epipe_arg": "bad_arg", "partial_kw": "ok"}
 KEY = {
     "W": {"cq.rlock.acq", "cq.r.poll", "cq.r.poll0", "cq.r.recv", "cq.sem.rel", "cq.rlock.rel", "task.run", "task.crash", "rq.wlock.acq", "rq.w.send",
           "rq.w.send2", "rq.wlock.rel", "mgmt.try", "mgmt.rel", "exitlock.acq"},
